@@ -30,6 +30,7 @@
     refundCandidateDeposit the salaries and refunds of the reward block never become votes (the code as it stands passes).
 -/
 import LemoProofs.C01
+import LemoProofs.Lemmas.LedgerFrame
 namespace LemoProofs.C11
 open LemoModel.Ledger LemoProofs.C01
 
@@ -315,6 +316,274 @@ theorem transfer_history_keeps_tally (V : List Nat) (p : Params) (x : Nat) (hx0 
     simp only [runBlocks]
     exact ih _ (fun b hb => hall b (List.mem_cons_of_mem _ hb)) h2 h3 h1
 
+/-! ### "an unregistered candidate has zero votes" — PROVED on the code as it stands (flag check of fix cdfc5bc on) -/
+
+/-- every stored flag is absent/"" (0), "true" (1) or "false" (2), and only a REGISTERED candidate holds votes -/
+def FlagInv (s : St) : Prop := ∀ a, (s.accts a).isCand ≤ 2 ∧ ((s.accts a).isCand ≠ 1 → (s.accts a).votes = 0)
+
+open LemoProofs.LedgerReward in
+theorem FlagInv_of_frame (s s' : St) (h : ∀ x, sameButBalDep (s'.accts x) (s.accts x)) (hI : FlagInv s) : FlagInv s' := by
+  intro a
+  rw [(h a).2.2.1, (h a).2.1]
+  exact hI a
+
+/-- an account update that keeps flag and votes -/
+theorem FlagInv_modKeep (s : St) (a : Nat) (f : Acct → Acct) (hf : ∀ y, (f y).isCand = y.isCand ∧ (f y).votes = y.votes)
+    (hI : FlagInv s) : FlagInv (modAcct s a f) := by
+  intro x
+  unfold modAcct upd
+  by_cases e : x = a
+  · subst e; simp only [if_true]; rw [(hf _).1, (hf _).2]; exact hI x
+  · simp only [e, if_false]; exact hI x
+
+/-- an update of the VOTES of a registered candidate -/
+theorem FlagInv_modVotes (s : St) (a : Nat) (f : Acct → Acct) (hf : ∀ y, (f y).isCand = y.isCand)
+    (h1 : (s.accts a).isCand = 1) (hI : FlagInv s) : FlagInv (modAcct s a f) := by
+  intro x
+  unfold modAcct upd
+  by_cases e : x = a
+  · subst e; simp only [if_true]; rw [(hf _)]; exact ⟨by omega, fun hne => absurd h1 hne⟩
+  · simp only [e, if_false]; exact hI x
+
+theorem modAcct_isCand_keep (s : St) (a : Nat) (f : Acct → Acct) (hf : ∀ y, (f y).isCand = y.isCand) (x : Nat) :
+    ((modAcct s a f).accts x).isCand = (s.accts x).isCand := by
+  unfold modAcct upd
+  by_cases e : x = a
+  · subst e; simp [hf]
+  · simp [e]
+
+/-- an update that SETS the flag to "true" (whatever it does to the votes) -/
+theorem FlagInv_modTo1 (s : St) (a : Nat) (f : Acct → Acct) (hf : ∀ y, (f y).isCand = 1) (hI : FlagInv s) :
+    FlagInv (modAcct s a f) := by
+  intro x
+  unfold modAcct upd
+  by_cases e : x = a
+  · subst e; simp only [if_true]; rw [hf]; exact ⟨by omega, fun hne => absurd rfl hne⟩
+  · simp only [e, if_false]; exact hI x
+
+theorem doVote_flagInv (c : Ctx) (s s' : St) (v cand : Nat) (ib : Int) (hI : FlagInv s)
+    (h : doVote c s v cand ib = .ok s') : FlagInv s' := by
+  unfold doVote at h
+  simp only at h
+  split at h; · cases h
+  rename_i hcand
+  split at h; · cases h
+  injection h with h; subst h
+  have hc1 : (s.accts cand).isCand = 1 := by have := (hI cand).1; omega
+  refine FlagInv_modKeep _ _ _ ?_ ?_
+  · intro _; exact ⟨rfl, rfl⟩
+  · split
+    · exact hI
+    · split
+      · rename_i hold
+        refine FlagInv_modVotes _ _ _ ?_ ?_ ?_
+        · intro _; rfl
+        · simp only [modAcct, upd]; split <;> simp_all
+        · refine FlagInv_modVotes _ _ _ ?_ hold.2 hI
+          intro _; rfl
+      · refine FlagInv_modVotes _ _ _ ?_ hc1 hI
+        intro _; rfl
+
+open LemoProofs.LedgerReward in
+theorem doRegister_flagInv (c : Ctx) (hfc : c.flagCheck = true) (s s' : St) (fr : Nat) (amt : Int) (flag inc : Nat) (nd : Bool)
+    (hI : FlagInv s) (h : doRegister c s fr amt flag inc nd = .ok s') : FlagInv s' := by
+  unfold doRegister at h
+  simp only [hfc, true_and] at h
+  split at h; · cases h
+  rename_i hvalid
+  split at h
+  · -- first registration: the flag is "true"
+    split at h; · cases h
+    rename_i hn2
+    split at h; · cases h
+    split at h; · cases h
+    injection h with h; subst h
+    have hflag : flag = 1 := by omega
+    subst hflag
+    refine FlagInv_modVotes _ _ _ ?_ ?_ ?_
+    · intro _; rfl
+    · rw [(transfer_sameButBal _ fr c.p.pool amt fr).1.2.2.1]
+      simp [modAcct, upd]
+    · refine FlagInv_of_frame _ _ (fun x => (transfer_sameButBal _ _ _ _ x).1) ?_
+      refine FlagInv_modTo1 _ _ _ ?_ hI
+      intro _; rfl
+  · split at h; · cases h
+    split at h; · cases h
+    rename_i hn0 hn2c h1'
+    have hs1 : (s.accts fr).isCand = 1 := Decidable.of_not_not h1'
+    split at h
+    · -- unregister
+      have hI2 : FlagInv (modAcct s fr (fun a => { a with isCand := 2, votes := 0 })) := by
+        intro x
+        unfold modAcct upd
+        by_cases e : x = fr
+        · subst e; simp
+        · simp only [e, if_false]; exact hI x
+      split at h
+      · injection h with h; subst h; exact hI2
+      · split at h
+        · injection h with h; subst h; exact hI2
+        · injection h with h; subst h
+          exact FlagInv_of_frame _ _ (fun x => refund_frame c _ fr x) hI2
+    · -- update: the flag is "true"
+      rename_i hnf2
+      have hflag : flag = 1 := by omega
+      subst hflag
+      split at h
+      · split at h; · cases h
+        split at h; · cases h
+        injection h with h; subst h
+        refine FlagInv_modTo1 _ _ _ ?_ ?_
+        · intro _; rfl
+        · exact FlagInv_of_frame _ _ (fun x => (transfer_sameButBal s fr c.p.pool amt x).1) hI
+      · injection h with h; subst h
+        refine FlagInv_modTo1 _ _ _ ?_ hI
+        intro _; rfl
+
+open LemoProofs.LedgerReward in
+theorem applySimple_flagInv (c : Ctx) (hfc : c.flagCheck = true) (s s' : St) (gp gp' g : Nat) (tx : Tx) (hI : FlagInv s)
+    (h : applySimple c s gp tx = .ok (s', gp', g)) : FlagInv s' := by
+  obtain ⟨sb, hb, hs', _, _⟩ := LemoProofs.LedgerFrame.applySimple_shape c s s' gp gp' g tx h
+  subst hs'
+  apply FlagInv_of_frame _ _ (fun x => (setBal_sameButBal _ _ _ x).1)
+  have h1 : FlagInv (setBal s tx.payer ((s.accts tx.payer).bal - (tx.gasLimit : Int) * tx.gasPrice)) :=
+    FlagInv_of_frame _ _ (fun x => (setBal_sameButBal _ _ _ x).1) hI
+  unfold body at hb
+  cases hk : tx.kind with
+  | transfer to v =>
+    simp only [hk] at hb
+    split at hb; · cases hb
+    split at hb
+    · injection hb with hb; subst hb; exact h1
+    · injection hb with hb; subst hb
+      exact FlagInv_of_frame _ _ (fun x => (transfer_sameButBal _ _ _ _ x).1) h1
+  | vote cand => simp only [hk] at hb; exact doVote_flagInv c _ sb _ _ _ h1 hb
+  | register amt flag inc nd => simp only [hk] at hb; exact doRegister_flagInv c hfc _ sb _ _ _ _ _ h1 hb
+  | setSigners tg l tok =>
+    simp only [hk] at hb
+    unfold doSetSigners at hb
+    split at hb; · cases hb
+    split at hb; · cases hb
+    split at hb; · cases hb
+    split at hb; · cases hb
+    split at hb; · cases hb
+    split at hb; · cases hb
+    injection hb with hb; subst hb
+    exact FlagInv_modKeep _ _ _ (fun _ => ⟨rfl, rfl⟩) h1
+  | box => simp [hk] at hb
+  | other => simp [hk] at hb
+
+theorem applySubs_flagInv (c : Ctx) (hfc : c.flagCheck = true) : ∀ (ts : List Tx) (s s' : St) (gp gp' g : Nat) (f : Int),
+    FlagInv s → applySubs c s gp ts = .ok (s', gp', g, f) → FlagInv s' := by
+  intro ts
+  induction ts with
+  | nil =>
+    intro s s' gp gp' g f hI h
+    simp only [applySubs] at h
+    injection h with h; injection h with h1 _
+    subst h1; exact hI
+  | cons t ts ih =>
+    intro s s' gp gp' g f hI h
+    simp only [applySubs] at h
+    cases h1 : applySimple c s gp t with
+    | error e => simp [h1] at h
+    | ok r =>
+      obtain ⟨s1, gp1, g1⟩ := r
+      simp only [h1] at h
+      cases h2 : applySubs c s1 gp1 ts with
+      | error e => simp [h2] at h
+      | ok r2 =>
+        obtain ⟨s2, gp2, g2, f2⟩ := r2
+        simp only [h2] at h
+        injection h with h; injection h with a1 _
+        subst a1
+        exact ih s1 s2 gp1 gp2 g2 f2 (applySimple_flagInv c hfc s s1 gp gp1 g1 t hI h1) h2
+
+open LemoProofs.LedgerReward in
+theorem applyTx_flagInv (c : Ctx) (hfc : c.flagCheck = true) (s s' : St) (gp gp' g : Nat) (tx : Tx) (hI : FlagInv s)
+    (h : applyTx c s gp tx = .ok (s', gp', g)) : FlagInv s' := by
+  unfold applyTx at h
+  split at h
+  · simp only at h
+    split at h; · cases h
+    split at h; · cases h
+    split at h; · cases h
+    split at h; · cases h
+    split at h; · cases h
+    split at h; · cases h
+    rename_i s2 gp2 sg sf hsub
+    injection h with h
+    injection h with h1 _
+    subst h1
+    apply FlagInv_of_frame _ _ (fun x => (setBal_sameButBal _ _ _ x).1)
+    apply FlagInv_of_frame _ _ (fun x => (chargeForGas_sameButBal _ _ _ x).1)
+    exact applySubs_flagInv c hfc tx.subs _ s2 _ gp2 sg sf
+      (FlagInv_of_frame _ _ (fun x => (setBal_sameButBal _ _ _ x).1) hI) hsub
+  · exact applySimple_flagInv c hfc s s' gp gp' g tx hI h
+
+theorem mine_flagInv (c : Ctx) (hfc : c.flagCheck = true) : ∀ (txs : List Tx) (s : St) (gp : Nat),
+    FlagInv s → FlagInv (mine c s gp txs).st := by
+  intro txs
+  induction txs with
+  | nil => intro s gp hI; simp only [mine]; exact hI
+  | cons t ts ih =>
+    intro s gp hI
+    unfold mine
+    by_cases hg : gp < LemoGen.Gas.OrdinaryTxGas
+    · simp only [hg, if_true]; exact hI
+    · simp only [hg, if_false]
+      cases ha : applyTx c s gp t with
+      | error e => obtain ⟨e, gp'⟩ := e; simp only []; exact ih s gp' hI
+      | ok r =>
+        obtain ⟨s1, gp1, g1⟩ := r
+        simp only []
+        exact ih s1 gp1 (applyTx_flagInv c hfc s s1 gp gp1 g1 t hI ha)
+
+theorem votesByBalance_flagInv (c : Ctx) (start : Nat → Int) : ∀ (l : List Nat) (s : St), FlagInv s →
+    FlagInv (votesByBalance c start s l) := by
+  intro l
+  induction l with
+  | nil => intro s hI; exact hI
+  | cons a as ih =>
+    intro s hI
+    unfold votesByBalance
+    simp only
+    apply ih
+    split
+    · rename_i hcond
+      intro x
+      simp only [upd]
+      by_cases e : x = (s.accts a).voteFor
+      · subst e; simp only [if_true]; exact ⟨by omega, fun hne => absurd hcond.2.2 hne⟩
+      · simp only [e, if_false]; exact hI x
+    · exact hI
+
+open LemoProofs.LedgerReward in
+/-- **unregistered_zero_votes_block**: on the code as it stands (flag check on), for ALL states satisfying `FlagInv`, all
+    candidate lists (every modelled kind, boxes, failing txs), gas limits, heights (reward blocks included) and facts:
+    after the block every stored flag is still absent / "true" / "false", and every account that is NOT a registered
+    candidate — never registered, or UNREGISTERED — has zero votes. -/
+theorem unregistered_zero_votes_block (c : Ctx) (hfc : c.flagCheck = true) (s : St) (hI : FlagInv s) (gp : Nat)
+    (txs : List Tx) (addrs : List Nat) :
+    FlagInv (mineBlock c s gp txs addrs).1 ∧
+    (∀ a, ((mineBlock c s gp txs addrs).1.accts a).isCand = 2 → ((mineBlock c s gp txs addrs).1.accts a).votes = 0) := by
+  have h1 : FlagInv (chargeForGas (mine c s gp txs).st c.miner (mine c s gp txs).fee) :=
+    FlagInv_of_frame _ _ (fun x => (chargeForGas_sameButBal _ _ _ x).1) (mine_flagInv c hfc txs s gp hI)
+  have h2 : FlagInv (mineBlock c s gp txs addrs).1 := by
+    unfold mineBlock finalize
+    simp only
+    split
+    · exact votesByBalance_flagInv c _ addrs _ (FlagInv_of_frame _ _ (fun x => rewardSteps_frame c _ x) h1)
+    · exact FlagInv_of_frame _ _ (fun x => rewardSteps_frame c _ x) (votesByBalance_flagInv c _ addrs _ h1)
+  exact ⟨h2, fun a ha => (h2 a).2 (by omega)⟩
+
+/-- non-vacuity: the genesis-like witness state satisfies the invariant -/
+example : FlagInv ns0 := by
+  intro a
+  unfold ns0
+  simp only
+  split <;> (try split) <;> (try split) <;> (try split) <;> (try split) <;> simp
+
 /-! ### single transactions -/
 
 /-- **revote_moves_weight**: a successful vote tx by `voter` (balance-before-tx `ib`, weight
@@ -353,8 +622,20 @@ theorem register_sets_deposit_votes (c : Ctx) (s s' : St) (fr : Nat) (amt : Int)
   simp only [h0, if_true] at h
   split at h; · cases h
   split at h; · cases h
+  split at h; · cases h
+  split at h; · cases h
   injection h with h; subst h
   simp [modAcct, upd, transfer, setBal, hp, Ne.symm hp]
+
+/-- on the code as it stands (flag check on) a successful first registration carries the flag "true" -/
+theorem register_flag_is_true (c : Ctx) (hfc : c.flagCheck = true) (s s' : St) (fr : Nat) (amt : Int) (flag inc : Nat) (nd : Bool)
+    (h0 : (s.accts fr).isCand = 0) (h : doRegister c s fr amt flag inc nd = .ok s') : flag = 1 := by
+  unfold doRegister at h
+  simp only [h0, if_true, hfc, true_and] at h
+  split at h; · cases h
+  split at h; · cases h
+  rename_i h1 h2
+  omega
 
 /-- **unregister_zeroes**: the unregistration of a REGISTERED candidate (stored flag "true", tx flag "false") -/
 theorem unregister_zeroes (c : Ctx) (s s' : St) (fr : Nat) (amt : Int) (inc : Nat) (nd : Bool)
@@ -363,7 +644,7 @@ theorem unregister_zeroes (c : Ctx) (s s' : St) (fr : Nat) (amt : Int) (inc : Na
   unfold doRegister at h
   simp only [h1] at h
   simp only [show ¬ (1 : Nat) = 0 by decide, show ¬ (1 : Nat) = 2 by decide, if_false, if_true,
-    ne_eq, not_true_eq_false] at h
+    ne_eq, not_true_eq_false, and_false, show ¬ (2 : Nat) = 1 by decide, not_false_eq_true, and_true] at h
   split at h
   · injection h with h; subst h; simp [modAcct, upd]
   · split at h
@@ -388,6 +669,7 @@ theorem topup_adds_floor_difference (c : Ctx) (s s' : St) (fr : Nat) (amt : Int)
   simp only [h1] at h
   simp only [show ¬ (1 : Nat) = 0 by decide, show ¬ (1 : Nat) = 2 by decide, if_false, hf,
     ne_eq, not_true_eq_false, ha, if_true, hd] at h
+  split at h; · cases h
   split at h; · cases h
   injection h with h; subst h
   have hmono : old / c.p.depositRate ≤ (old + amt) / c.p.depositRate := Int.ediv_le_ediv hr (by omega)
@@ -448,7 +730,9 @@ theorem negative_votes_refuted :
     ((mineBlock rctx ns0 100000000 [rtx1, ntx2] nU).1.accts 23).votes = 12 := by
   decide
 
-/-! ### "an unregistered candidate has zero votes" — refuted: the isCandidate flag of a RegisterTx is never validated -/
+/-! ### "an unregistered candidate has zero votes" — refuted on the code BEFORE fix cdfc5bc (the isCandidate flag of a
+    RegisterTx was never validated; model switch `flagCheck := false`); on the code as it stands the same transactions are
+    refused (`flag_txs_refused_now`) and the clause is PROVED: `unregistered_zero_votes_block`. -/
 
 /-- account 10 (never registered, balance 5000); pool = 1; registration txs with deposit 2000 / 3000 (gas is free here) -/
 def fs0 : St :=
@@ -460,40 +744,54 @@ def fVote : Tx :=
   { id := 9, sender := 11, payer := 11, gasLimit := 35000, gasPrice := 0, txType := 2, msgLen := 0, nzData := 0,
     zData := 0, kind := .vote 10, fromSigners := some [11], payerSigners := some [] }
 def fU : List Nat := [1, 3, 4, 10, 11]
+/-- the code BEFORE fix cdfc5bc: the isCandidate flag of a RegisterTx was never validated -/
+def lctx : Ctx := { rctx with flagCheck := false }
 
-/-- **unregistered_has_votes_refuted**: a FIRST RegisterTx that says isCandidate:"false" (flag 2) with a sufficient deposit
+/-- **unregistered_has_votes_refuted** (code before fix cdfc5bc): a FIRST RegisterTx that says isCandidate:"false" (flag 2) with a sufficient deposit
     is executed by `registerCandidate` like any registration: the account ends up UNREGISTERED (flag "false": it cannot be
     voted for, cannot register again, its deposit is refunded in the next reward block) WITH 20 deposit votes — which it
     keeps for ever (nothing ever resets them), and with which the store's ranking can elect it. -/
 theorem unregistered_has_votes_refuted :
-    (mineBlock rctx fs0 100000000 [fReg 1 2000 2] fU).2.1 = [(1, 92000)] ∧
-    ((mineBlock rctx fs0 100000000 [fReg 1 2000 2] fU).1.accts 10).isCand = 2 ∧
-    ((mineBlock rctx fs0 100000000 [fReg 1 2000 2] fU).1.accts 10).votes = 20 ∧
-    ((mineBlock rctx fs0 100000000 [fReg 1 2000 2] fU).1.accts 10).deposit = some 2000 := by
+    (mineBlock lctx fs0 100000000 [fReg 1 2000 2] fU).2.1 = [(1, 92000)] ∧
+    ((mineBlock lctx fs0 100000000 [fReg 1 2000 2] fU).1.accts 10).isCand = 2 ∧
+    ((mineBlock lctx fs0 100000000 [fReg 1 2000 2] fU).1.accts 10).votes = 20 ∧
+    ((mineBlock lctx fs0 100000000 [fReg 1 2000 2] fU).1.accts 10).deposit = some 2000 := by
   decide
 
-/-- **blank_flag_refuted**: with isCandidate:"" (flag 0) the registration is executed, but the stored flag reads as "never
+/-- **blank_flag_refuted** (code before fix cdfc5bc): with isCandidate:"" (flag 0) the registration is executed, but the stored flag reads as "never
     registered": the account holds 20 votes without being a candidate, and can go through the FIRST-registration path again —
     the second deposit (3000) overwrites the recorded one, the first 2000 stay in the pool (5000) unrecorded: no refund
     will ever return them. -/
 theorem blank_flag_refuted :
-    ((mineBlock rctx fs0 100000000 [fReg 1 2000 0] fU).1.accts 10).isCand = 0 ∧
-    ((mineBlock rctx fs0 100000000 [fReg 1 2000 0] fU).1.accts 10).votes = 20 ∧
-    (mineBlock rctx fs0 100000000 [fReg 1 2000 0, fReg 2 3000 1] fU).2.1 = [(1, 92000), (2, 92000)] ∧
-    ((mineBlock rctx fs0 100000000 [fReg 1 2000 0, fReg 2 3000 1] fU).1.accts 10).deposit = some 3000 ∧
-    ((mineBlock rctx fs0 100000000 [fReg 1 2000 0, fReg 2 3000 1] fU).1.accts 1).bal = 5000 := by
+    ((mineBlock lctx fs0 100000000 [fReg 1 2000 0] fU).1.accts 10).isCand = 0 ∧
+    ((mineBlock lctx fs0 100000000 [fReg 1 2000 0] fU).1.accts 10).votes = 20 ∧
+    (mineBlock lctx fs0 100000000 [fReg 1 2000 0, fReg 2 3000 1] fU).2.1 = [(1, 92000), (2, 92000)] ∧
+    ((mineBlock lctx fs0 100000000 [fReg 1 2000 0, fReg 2 3000 1] fU).1.accts 10).deposit = some 3000 ∧
+    ((mineBlock lctx fs0 100000000 [fReg 1 2000 0, fReg 2 3000 1] fU).1.accts 1).bal = 5000 := by
   decide
 
-/-- **flag_overwritten_by_update_refuted**: an UPDATE tx of a registered candidate copies its flag over the stored one
+/-- **flag_overwritten_by_update_refuted** (code before fix cdfc5bc): an UPDATE tx of a registered candidate copies its flag over the stored one
     (`modifyCandidateInfo` copies every key but nodeID / deposit). With an arbitrary string (flag 3) the account is still
     accepted as a candidate by CallVoteTx (11's vote is executed) but the vote pass and re-votes only know "true": its count
     is frozen; and RegisterOrUpdateToCandidate answers ErrIsCandidate from now on — it can never top up, unregister or be
     refunded (the third tx is discarded). -/
 theorem flag_overwritten_by_update_refuted :
-    (mineBlock rctx fs0 100000000 [fReg 1 2000 1, fReg 2 0 3, fVote, fReg 3 0 2] fU).2.1 = [(1, 92000), (2, 92000), (9, 35000)] ∧
-    (mineBlock rctx fs0 100000000 [fReg 1 2000 1, fReg 2 0 3, fVote, fReg 3 0 2] fU).2.2.1 = [(3, "ErrIsCandidate")] ∧
-    ((mineBlock rctx fs0 100000000 [fReg 1 2000 1, fReg 2 0 3, fVote, fReg 3 0 2] fU).1.accts 10).isCand = 3 ∧
-    ((mineBlock rctx fs0 100000000 [fReg 1 2000 1, fReg 2 0 3, fVote, fReg 3 0 2] fU).1.accts 11).voteFor = 10 := by
+    (mineBlock lctx fs0 100000000 [fReg 1 2000 1, fReg 2 0 3, fVote, fReg 3 0 2] fU).2.1 = [(1, 92000), (2, 92000), (9, 35000)] ∧
+    (mineBlock lctx fs0 100000000 [fReg 1 2000 1, fReg 2 0 3, fVote, fReg 3 0 2] fU).2.2.1 = [(3, "ErrIsCandidate")] ∧
+    ((mineBlock lctx fs0 100000000 [fReg 1 2000 1, fReg 2 0 3, fVote, fReg 3 0 2] fU).1.accts 10).isCand = 3 ∧
+    ((mineBlock lctx fs0 100000000 [fReg 1 2000 1, fReg 2 0 3, fVote, fReg 3 0 2] fU).1.accts 11).voteFor = 10 := by
+  decide
+
+/-- **flag_txs_refused_now**: on the code as it stands the three kinds of transactions above are refused — the tx is
+    discarded by the miner, nothing is stored: "false" on a first registration (ErrOfNotCandidateNode), "" and any other
+    string (ErrInvalidProfile, on first registrations and on updates alike). -/
+theorem flag_txs_refused_now :
+    (mineBlock rctx fs0 100000000 [fReg 1 2000 2] fU).2.2.1 = [(1, "ErrOfNotCandidateNode")] ∧
+    (mineBlock rctx fs0 100000000 [fReg 1 2000 0] fU).2.2.1 = [(1, "ErrInvalidProfile")] ∧
+    (mineBlock rctx fs0 100000000 [fReg 1 2000 3] fU).2.2.1 = [(1, "ErrInvalidProfile")] ∧
+    (mineBlock rctx fs0 100000000 [fReg 1 2000 1, fReg 2 0 3, fReg 3 0 0] fU).2.2.1 = [(2, "ErrInvalidProfile"), (3, "ErrInvalidProfile")] ∧
+    ((mineBlock rctx fs0 100000000 [fReg 1 2000 1, fReg 2 0 3, fReg 3 0 0] fU).1.accts 10).isCand = 1 ∧
+    ((mineBlock rctx fs0 100000000 [fReg 1 2000 2] fU).1.accts 10).votes = 0 := by
   decide
 
 /-! ### the order of the steps of Finalize matters (kernel-checked witness) -/
